@@ -59,7 +59,7 @@ func (propC04) Cases(tier string) int {
 	if tier == "thorough" {
 		return 8000000
 	}
-	return 400000
+	return 300000
 }
 
 func (propC04) Run(ctx *Ctx, index int) {
